@@ -377,12 +377,12 @@ def _recv_once(chk, case, seq):
             and d.get("payload") != "keyDistributionOnly"):
         # a media message of a kind the library cannot present (with or without a piggy-backed key distribution): one receipt
         rc = [n for n in sent if n.tag == "receipt"]
-        if raised is not None or len(rc) != 1 or rc[0]["id"] != node["id"] or rc[0]["to"] != node["from"]:
+        if raised is not None or len(rc) != 1 or rc[0]["id"] != node["id"] or rc[0]["to"] != node["from"] or rc[0]["participant"] != node["participant"]:
             fails.append(oracle("C07:unsupported-media-receipt", "media message of an unsupported kind%s: sent back %s%s"
                                 % (" with a key distribution" if d.get("skdm") else "", [str(n).replace("\n", "") for n in sent], " (raised %r)" % raised if raised else "")))
     if d["tag"] == "message" and d.get("hasProto") and d.get("mtype") != "media" and d.get("media", "absent") == "absent" and d.get("payload") == "other":
         rc = [n for n in sent if n.tag == "receipt"]
-        if len(rc) != 1 or rc[0]["id"] != node["id"] or rc[0]["to"] != node["from"]:
+        if len(rc) != 1 or rc[0]["id"] != node["id"] or rc[0]["to"] != node["from"] or rc[0]["participant"] != node["participant"]:
             fails.append(oracle("C07:unsupported-payload-receipt", "message with an unsupported payload: sent back %s" % [str(n).replace("\n", "") for n in sent]))
     return fails
 
